@@ -35,6 +35,15 @@ CLAIMS = {
  "C09": dict(
    text="Theorems C09_order_independent, C09_root_order_irrelevant, C09_aggregation_order_free, C09_nothing_pending: any two contract-satisfying enumerations and root orders give identical numbers and no record remains pending. Correspondence: every permutation of trees+tags for small graphs, random legal orders, ROOT order, and real git loose/repacked/packed-refs.",
    note=SCAN_NOTE + " Storage layout is covered by sampling only (partial).", technique="Coq proof + permutation exploration via fakegit + real-git layouts"),
+
+ "C06": dict(
+   text="Theorems C06_last_match (fold of options = last-matching-rule spec, for every option list, forest and name), C06_prefix (component-boundary rule as an iff), C06_prefix_generated (the Gallina generated from prefixFilter.Filter equals it), C06_regexp_full (anchored search of ^(?:p)$ = whole-name match on the regexp model), C06_group_matches. Tie: API-level differential runs of PrefixFilter/RegexpFilter (with Python re.fullmatch as independent judge) and CLI --show-refs marks for generated and exhaustively enumerated option sequences.",
+   note="Trusted: Coq kernel, go2coq+GoSem, extraction, harness, fakegit. Go's regexp/syntax is modelled for a fragment (literals, ., classes, * + ?, alternation, groups) on ASCII names; patterns outside it are only exercised, not proved. pflag's in-order option processing is observed through the CLI. The alternation-anchoring defect was repaired (a9db31e).",
+   technique="Coq proof on executable model + translator bridge + differential correspondence"),
+ "C07": dict(
+   text="Theorems C07_unwalked, C07_walked, C07_group_tallied_iff_matches on the model of collectSymbols/Categorize (nested refgroup forests built from gitconfig with implicit parents); reference_count is part of scan_correct. Tie: CLI JSON v1 reference_groups, JSON v2 refgroup.* and the verbose table for generated forests up to 14 levels deep. The full declarative characterisation of every tallied symbol is checked by the correspondence (model = code) but proved only in the parts listed; rendering totality is checked by running -v on deep forests (panic repaired in 063ce9f).",
+   note="Trusted as for C06. Known finding: user groups named ignored/other/<g>.other collide with the synthetic buckets.",
+   technique="Coq proof on executable model + differential correspondence through the CLI"),
 }
 
 m = {
